@@ -44,7 +44,7 @@ def stage(workdir: str, extra_modules: dict[str, str] | None = None) -> None:
 def run(workdir: str, module: str, cfg: str, *, workers: int = 1, env: dict | None = None,
         args: list[str] | None = None, timeout: int = 3600, heap: str = "4g") -> str:
     """Run TLC; returns stdout+stderr. Raises TLCError on a machinery failure."""
-    meta = os.path.join(workdir, "meta-" + module + "-" + os.path.basename(cfg))
+    meta = tempfile.mkdtemp(prefix="meta-", dir=workdir)
     cmd = ["java", f"-Xmx{heap}", "-XX:+UseParallelGC", "-cp", _classpath(), "tlc2.TLC",
            "-workers", str(workers), "-metadir", meta, "-noGenerateSpecTE", "-config", cfg]
     cmd += args or []
